@@ -116,6 +116,8 @@ impl BatchMaker {
         let batch: Vec<_> = self.current_batch.drain(..).collect();
         let message = MempoolMessage::Batch(batch);
         let serialized = bincode::serialize(&message).expect("Failed to serialize our own batch");
+        #[cfg(hotstuff_verif)]
+        network::simnet::emit(format!("\"ev\":\"Seal\",\"ntx\":{},\"len\":{}", match &message { MempoolMessage::Batch(b) => b.len(), _ => 0 }, serialized.len()));
 
         #[cfg(feature = "benchmark")]
         {
